@@ -37,6 +37,10 @@ union Mid
 struct UsesB
     o b.Other?
 
+struct CrossKid extends a.Holder
+    "inherits, across namespaces, fields whose types are local names of the parent's namespace"
+    ck Int32
+
 alias Later = List(Abc)
 alias Early = Later
 
